@@ -71,8 +71,12 @@ func Elements(iterable Iterable) iter.Seq[Value] {
 		return iterable.Elements()
 	}
 
-	iter := iterable.Iterate()
 	return func(yield func(Value) bool) {
+		// The iterator is created when the sequence is ranged over,
+		// not when it is obtained: a sequence that is never used must
+		// not leave the iterable locked, and one that is used twice
+		// must not call Done twice on the same iterator.
+		iter := iterable.Iterate()
 		defer iter.Done()
 		var x Value
 		for iter.Next(&x) && yield(x) {
@@ -100,8 +104,9 @@ func Entries(mapping IterableMapping) iter.Seq2[Value, Value] {
 		return mapping.Entries()
 	}
 
-	iter := mapping.Iterate()
 	return func(yield func(k, v Value) bool) {
+		// See Elements for why the iterator is created here.
+		iter := mapping.Iterate()
 		defer iter.Done()
 		var k Value
 		for iter.Next(&k) {
